@@ -71,9 +71,10 @@ def leaves_of(t):
     return leaves_of(t[1]) + leaves_of(t[2])
 
 
-def program(t, kind):
+def program(t, kind, imm=()):
     leaves = leaves_of(t)
-    flows = "".join("flow f%s\n  match %s()\n\n" % (x.lower().replace("e", "x"), x) for x in leaves)
+    # a member flow listed in `imm` never waits: it finishes while it is being started
+    flows = "".join(("flow f%s\n  $v%s = 1\n\n" % (x.lower().replace("e", "x"), x.lower()[1:])) if x in imm else ("flow f%s\n  match %s()\n\n" % (x.lower().replace("e", "x"), x)) for x in leaves)
     fname = lambda x: "f" + x.lower().replace("e", "x")  # noqa: E731
     # flow names must not contain bare digits after a space; "fx0" is one token
     if kind == "match":
@@ -115,6 +116,18 @@ def cases(tier, seed):
                     for mode in modes:
                         i += 1
                         yield {"id": i, "kind": kind, "tree": t, "seq": seq, "mode": mode}
+    # member flows that finish without ever waiting (their Finished event belongs to the await/when statement that starts them)
+    for kind in ("await", "when"):
+        for nl in (2, 3):
+            leaves = ["E%d" % j for j in range(nl)]
+            for t in trees(leaves):
+                for r in range(1, nl + 1):
+                    for imm in itertools.combinations(leaves, r):
+                        rest = [x for x in leaves if x not in imm]
+                        seqs = [[]] + [list(p_) for k_ in range(1, len(rest) + 1) for p_ in itertools.permutations(rest, k_)]
+                        for seq in seqs:
+                            i += 1
+                            yield {"id": i, "kind": kind, "tree": t, "seq": seq, "mode": "plain", "imm": list(imm)}
     # sampled larger formulas
     rng = random.Random(1000 + seed)
     nsamp = 1500 if tier == "quick" else 40000
@@ -146,7 +159,8 @@ def run_case(case):
 
     L = v2h.load()
     t, kind, seq, mode = case["tree"], case["kind"], case["seq"], case["mode"]
-    src = program(t, kind)
+    imm = tuple(case.get("imm") or ())
+    src = program(t, kind, imm)
     L["random"].reset(seed=zlib.crc32(repr((t, kind, seq)).encode()))
     L["clock"].reset()
     if mode == "noisy":
@@ -161,7 +175,9 @@ def run_case(case):
     groups = len(dnf(t))
     sample = {"kind": kind, "formula": render(t, lambda x: x), "events": full}
     base = {
-        "key": repr((kind, t, seq, mode)),
+        "key": repr((kind, t, seq, mode, imm)),
+        "imm": list(imm),
+        "imm_in_and_group": any(len(g) >= 2 and set(g) & set(imm) for g in dnf(t)),
         "nontrivial": (ops(t) == {"and", "or"} or len(leaves_of(t)) >= 3),
         "sample": sample,
         "kind": kind,
@@ -174,8 +190,8 @@ def run_case(case):
     fired = None
     if "Done" in v2h.types(st.outgoing_events):
         fired = -1
-    S = set()
-    exp = None
+    S = set(imm)
+    exp = -1 if (imm and evaluate(t, S)) else None
     err = None
     for i, e in enumerate(full):
         if mode == "aged":
@@ -208,6 +224,10 @@ def run_case(case):
 
 
 def classify(r):
+    if r.get("imm") and r.get("kind") in ("await", "when") and r.get("imm_in_and_group"):
+        # structural: a member flow that finishes while it is being started sits in an and-group with other members; the
+        # statement starts the members one after the other and only then begins to wait for their Finished events
+        return "and-group-member-finished-while-being-started"
     if r.get("kind") == "when" and r.get("groups", 1) > 1:
         return "when-case-with-or-group"
     w = r.get("witness", {})
